@@ -7,6 +7,7 @@ core.pyx, minheap.pyx, path/dag.py:get_dag) against the specification `SkNet/Spe
 import SkNet.Lemmas.TopologyTriangles
 import SkNet.Lemmas.TopologyReduce
 import SkNet.Lemmas.TopologyClustering
+import SkNet.Lemmas.TopologyCliquesTop
 import Mathlib.Tactic.Ring
 import Mathlib.Tactic.FieldSimp
 import Mathlib.Algebra.Order.Field.Rat
@@ -122,6 +123,64 @@ theorem pinned_prange_raceFree :
         otherStores := [], reductionReads := 0,
         callees := [⟨"count_local_triangles_from_dag", true, true, 0, 0⟩] } = true := by
   decide
+
+/-! ### cliques -/
+
+/-- ★ `cliques_recursive_exact`: for a symmetric adjacency predicate and any rank `r` that is injective on the
+    (duplicate-free) candidate list, the recursive count over the orientation `u → y iff adj u y ∧ r u < r y`
+    — `#k-cliques = Σ_u #(k−1)-cliques among the out-neighbours of u` — is the brute-force number of `k`-cliques.
+    Hence it does not depend on the rank. -/
+theorem cliques_recursive_exact (adj : Nat → Nat → Bool) (hsym : ∀ a b, adj a b = adj b a) (r : Nat → Int)
+    (k : Nat) (S : List Nat) (hnd : S.Nodup) (hinj : ∀ a ∈ S, ∀ b ∈ S, r a = r b → a = b) :
+    orientedCount (orient adj r) k S = cliqueCountOn adj k S :=
+  orientedCount_eq adj hsym r k S hnd hinj
+
+example : [3, 0, 2, 1].Nodup ∧ ∀ a ∈ [3, 0, 2, 1], ∀ b ∈ [3, 0, 2, 1],
+    (fun v : Nat => (7 - (v : Int))) a = (fun v : Nat => (7 - (v : Int))) b → a = b := by decide
+
+/-- the pruned recursive count used by the spec lines of the harness for the larger graphs is the brute-force
+    count -/
+theorem cliqueCountIn_eq_cliqueCount (n : Nat) (adj : Nat → Nat → Bool) (k : Nat) :
+    cliqueCountIn adj k (List.range n) = cliqueCount n adj k :=
+  cliqueCountIn_eq adj k (List.range n)
+
+/-- ★ `cliques_kernel_refines`: the array kernel `count_cliques_from_dag` (in-place reordering of the adjacency
+    segments, per-level candidate lists, truncated degrees, labels; `indices` passed by value) started on the box
+    of `ListingBox.__cinit__` and the DAG of `get_dag` returns the recursive count of the orientation
+    `edge i j ∧ 0 ≤ order i < order j` over all nodes, for every clique size `k ≥ 2`. -/
+theorem cliques_kernel_refines (n : Nat) (edge : Nat → Nat → Bool) (order : List Int) (hlen : order.length = n)
+    (k : Nat) (hk : 2 ≤ k) :
+    (cliquesFrom (getDag n edge order).indptr k (getDag n edge order).indices
+        (boxInit (getDag n edge order).indptr k)).1 =
+      orientedCount (fun i j => edge i j && keepPred order i j) k (List.range n) :=
+  cliquesFrom_getDag n edge order hlen k hk
+
+example : ([2, 0, 1] : List Int).length = 3 ∧ 2 ≤ 3 := by decide
+
+/-- ★ `cliques_exact`: on every undirected graph (symmetric adjacency predicate, any size) and for every `k ≥ 2`,
+    `count_cliques(adjacency, k)` returns the number of `k`-cliques, whatever permutation of the nodes
+    `np.argsort` returned. -/
+theorem cliques_exact (n : Nat) (adj : Nat → Nat → Bool) (hsym : ∀ a b, adj a b = adj b a) (k : Nat)
+    (hk : 2 ≤ k) (perm : List Nat) (hperm : perm.Perm (List.range n)) :
+    countCliquesWith n adj k perm = .ok (cliqueCount n adj k) :=
+  countCliquesWith_eq n adj hsym k hk perm (by rw [hperm.length_eq]; simp)
+    (hperm.nodup_iff.2 List.nodup_range)
+
+example : ([2, 0, 3, 1] : List Nat).Perm (List.range 4) := by decide
+
+/-- `count_cliques` is independent of the order used for the orientation (`argsort` of the core values) -/
+theorem cliques_order_free (n : Nat) (adj : Nat → Nat → Bool) (hsym : ∀ a b, adj a b = adj b a) (k : Nat)
+    (hk : 2 ≤ k) (perm perm' : List Nat) (h : perm.Perm (List.range n)) (h' : perm'.Perm (List.range n)) :
+    countCliquesWith n adj k perm = countCliquesWith n adj k perm' := by
+  rw [cliques_exact n adj hsym k hk perm h, cliques_exact n adj hsym k hk perm' h']
+
+/-- clique sizes below two are refused -/
+theorem cliques_refused (n : Nat) (edge : Nat → Nat → Bool) (k : Nat) (perm : List Nat) (hk : k < 2) :
+    countCliquesWith n edge k perm = .error .valueError := by
+  unfold countCliquesWith; rw [if_pos hk]
+
+/-- the model's stand-in for `np.argsort` returns a permutation of the nodes -/
+theorem argsort_is_perm (d : List Int) : (argsort d).Perm (List.range d.length) := argsort_perm d
 
 /-! ### clustering coefficient -/
 
